@@ -690,7 +690,16 @@ class Interp:
             return [(st, self.undecided(st, node, "dict literal key"))]
         if isinstance(base, RRuleV):
             self.site_counter += 1
-            return [(st, DTV(("rrule", base.sym, self.site_counter)))]
+            cnt = base.kwargs.get("count")
+            bounded = "until" in base.kwargs or not (isinstance(cnt, IntV) and cnt.lo >= 1)
+            ok = DTV(("rrule", base.sym, self.site_counter))
+            if bounded:
+                # with an end bound (or without count) the recurrence can be empty
+                s2 = st.fork()
+                self.tick()
+                return [(st, ok), (s2, self.raised("index", "IndexError", node,
+                                                   "the recurrence set can be empty (bounded by 'until' / no count)"))]
+            return [(st, ok)]
         if isinstance(base, StrV):
             return [(st, StrV(None, sym=("index", base.sym)))]
         if isinstance(base, TopV):
